@@ -99,3 +99,20 @@ pub fn rand_sp<R: Ent>(rng: &mut StdRng, m: usize, n: usize, density: f64, mag: 
     sp_from_dense(&d, m, n, &|i, j| pat[i][j])
 }
 pub fn rand_perm(rng: &mut StdRng, n: usize) -> Vec<usize> { use rand::seq::SliceRandom; let mut p: Vec<usize> = (0..n).collect(); p.shuffle(rng); p }
+
+impl Ent for yui::poly::Poly<'H', i64> {
+    fn ring() -> Value { json!({"k":"P","b":{"k":"Z"},"nv":0}) }
+    fn tname() -> String { "Poly<H,i64>".into() }
+    fn ent(&self) -> Value {
+        use yui::poly::Mono;
+        let mut ts: Vec<(usize, Value)> = self.iter().map(|(x, c)| (x.deg(), c.enc())).collect(); ts.sort_by_key(|t| t.0);
+        json!(ts.into_iter().map(|(e, c)| json!({"e": e, "c": c})).collect::<Vec<_>>())
+    }
+    fn rnd(rng: &mut StdRng, mag: i64) -> Self {
+        use yui::poly::Var;
+        let n = rng.gen_range(0..3);
+        yui::poly::Poly::from_iter((0..n).map(|_| (Var::from(rng.gen_range(0..3usize)), rng.gen_range(-mag..=mag))))
+    }
+    fn rnd_unit(rng: &mut StdRng) -> Self { yui::poly::Poly::from_const(if rng.gen_bool(0.5) { 1 } else { -1 }) }
+    fn of_int(x: i64) -> Self { yui::poly::Poly::from_const(x) }
+}
